@@ -20,8 +20,8 @@ from .absint import (AbsVal, AFunc, AList, AObj, ASet, BuiltinType, Ctx, Frame, 
 from .model import AnalysisError, Program, own_nodes
 
 WS = [" ", "~", "\t", "\n", "\r"]
-QUICK_CLASSES = ["\\", "{", "}", ",", " ", "~", "A", "b", "1", "\u6cfd"]      # the last one: a caseless letter (CJK)
-THOROUGH_CLASSES = QUICK_CLASSES + ["\n", "\t", "-", "É"]
+QUICK_CLASSES = ["\\", "{", "}", ",", " ", "~", "A", "b", "1", "\u6cfd", "\u00a0"]      # a caseless letter (CJK); a no-break space (an ordinary character)
+THOROUGH_CLASSES = QUICK_CLASSES + ["\n", "\t", "-", "É", "\x0b", "\u2028"]
 
 
 class Pruned(Exception):
@@ -216,6 +216,42 @@ class CharStream(AbsVal):
         return NotImplemented
 
 
+def discover_roles(program: Program, fi):
+    """The tokeniser's state variables by the role they play, not by their name: the list of sections is the one that
+    receives ``S[-1].append("".join(W))`` (W: the characters of the current word), the parallel list of word cases is another
+    ``K[-1].append(<name>)`` next to it; character variables are loop targets over / ``next()`` results of an iterator."""
+    best = None
+    for f in [fi] + [g for g in fi.module.functions.values() if g is not fi]:
+        S = W = None
+        for n in own_nodes(f.node):
+            if (isinstance(n, ast.Call) and isinstance(n.func, ast.Attribute) and n.func.attr == "append" and len(n.args) == 1
+                    and isinstance(n.func.value, ast.Subscript) and isinstance(n.func.value.value, ast.Name)):
+                a = n.args[0]
+                if (isinstance(a, ast.Call) and isinstance(a.func, ast.Attribute) and a.func.attr == "join" and isinstance(a.func.value, ast.Constant)
+                        and a.func.value.value == "" and len(a.args) == 1 and isinstance(a.args[0], ast.Name)):
+                    S, W = n.func.value.value.id, a.args[0].id
+        if S is None:
+            continue
+        K = None
+        iters, chars = set(), set()
+        for n in own_nodes(f.node):
+            if (isinstance(n, ast.Call) and isinstance(n.func, ast.Attribute) and n.func.attr == "append" and len(n.args) == 1
+                    and isinstance(n.func.value, ast.Subscript) and isinstance(n.func.value.value, ast.Name)
+                    and n.func.value.value.id != S and isinstance(n.args[0], ast.Name)):
+                K = n.func.value.value.id
+            if isinstance(n, ast.Assign) and isinstance(n.value, ast.Call) and isinstance(n.value.func, ast.Name) and n.value.func.id == "iter":
+                iters |= {t.id for t in n.targets if isinstance(t, ast.Name)}
+        for n in own_nodes(f.node):
+            if isinstance(n, ast.For) and isinstance(n.target, ast.Name):
+                chars.add(n.target.id)
+            if (isinstance(n, ast.Assign) and isinstance(n.value, ast.Call) and isinstance(n.value.func, ast.Name) and n.value.func.id == "next"
+                    and n.value.args and isinstance(n.value.args[0], ast.Name) and n.value.args[0].id in iters):
+                chars |= {t.id for t in n.targets if isinstance(t, ast.Name)}
+        best = {"func": f, "sections": S, "word": W, "cases": K, "chars": chars}
+        break
+    return best
+
+
 class TokRun:
     def __init__(self, owner, it):
         self.owner = owner
@@ -233,7 +269,7 @@ class TokRun:
     def frame(self):
         """The frame that holds the tokeniser state (the function itself or a helper it was split into)."""
         for fr in reversed(self.it.frames):
-            if "sections" in fr.env and "word" in fr.env and fr.module is self.owner.fi.module:
+            if self.owner.v_sections in fr.env and self.owner.v_word in fr.env and fr.module is self.owner.fi.module:
                 return fr
         return None
 
@@ -243,21 +279,27 @@ class TokRun:
             return
         env = fr.env
         self.owner.compared += 1
-        secs = [[w for w in s.items] for s in env["sections"].items] if isinstance(env["sections"], AList) else None
-        word = "".join(env["word"].items) if isinstance(env["word"], AList) and all(isinstance(x, str) for x in env["word"].items) else env["word"]
+        secs = [[w for w in s.items] for s in env[self.owner.v_sections].items] if isinstance(env[self.owner.v_sections], AList) else None
+        word = "".join(env[self.owner.v_word].items) if isinstance(env[self.owner.v_word], AList) and all(isinstance(x, str) for x in env[self.owner.v_word].items) else env[self.owner.v_word]
         # a pending escape: the code has already read the escaped character ahead; compare only when in step
         if self.ref.escaped:
             return
-        cs = env.get("cases")
+        cs = env.get(self.owner.v_cases)
         if secs == self.ref.sections and isinstance(cs, AList):
             for si, sec in enumerate(self.ref.sections):
                 got = cs.items[si].items if si < len(cs.items) and isinstance(cs.items[si], AList) else None
                 if got is None or len(got) != len(sec):
                     continue
                 for w, g in zip(sec, got):
+                    if self.owner.calibrating:
+                        # which mark the code gives a plain lower-case / upper-case word (0 / 1 today; an Enum member, a string ...)
+                        if w.isalpha() and w.isascii():
+                            (self.owner.lower_marks if w[0].islower() else self.owner.other_marks).add(self.owner.mark_key(g))
+                        continue
                     want_lower = bibtex_is_lower(w)
-                    if want_lower is not None and (g == 0) != want_lower:
-                        self.fail("case", f"word {w!r} is classified {'lower-case' if g == 0 else 'not lower-case'} (case {g}); BibTeX's rule "
+                    is_lower = self.owner.mark_key(g) in self.owner.lower_marks
+                    if want_lower is not None and is_lower != want_lower:
+                        self.fail("case", f"word {w!r} is classified {'lower-case' if is_lower else 'not lower-case'} (case {g}); BibTeX's rule "
                                           f"(von_token_found) says {'lower-case' if want_lower else 'not lower-case'}")
         if secs != self.ref.sections or word != self.ref.word:
             self.fail("conservation", f"after {''.join(self.chars)!r}: words {secs} + current {word!r}; every character exactly once gives "
@@ -268,7 +310,7 @@ class TokRun:
         out = []
         if fr is not None:
             for k, v in sorted(fr.env.items()):
-                if k in ("name", "nameiter", "char", "escaped", "sections", "word", "cases", "whitespace"):
+                if k in self.owner.skip_vars or isinstance(v, (NameStr, CharStream)):
                     continue
                 if isinstance(v, (bool, int, str)) or v is None:
                     out.append((k, v))
@@ -276,7 +318,7 @@ class TokRun:
                     out.append((k, min(len(v.items), 3)))
                 else:
                     out.append((k, type(v).__name__))
-            cs = fr.env.get("cases")
+            cs = fr.env.get(self.owner.v_cases)
             if isinstance(cs, AList):
                 out.append(("cases-shape", tuple(min(len(c.items), 2) if isinstance(c, AList) else -1 for c in cs.items)))
         return (self.ref.sig(), tuple(out))
@@ -327,6 +369,33 @@ class TokExplorer:
         self.exc_cls = program.module("middlewares.names").classes.get("InvalidNameError")
         if self.exc_cls is None:
             raise AnalysisError("anchor vanished: InvalidNameError")
+        self.calibrating = False
+        self.lower_marks, self.other_marks = {("int", 0)}, set()
+        roles = discover_roles(program, self.fi) or {"sections": "sections", "word": "word", "cases": "cases", "chars": {"char", "escaped"}}
+        self.v_sections, self.v_word, self.v_cases = roles["sections"], roles["word"], roles["cases"] or "cases"
+        self.skip_vars = {self.v_sections, self.v_word, self.v_cases} | set(roles["chars"])
+        self.roles = {k: (sorted(v) if isinstance(v, set) else v) for k, v in roles.items() if k != "func"}
+
+    @staticmethod
+    def mark_key(g):
+        return (type(g).__name__, getattr(g, "name", None) if isinstance(g, AbsVal) else g)
+
+    def calibrate(self):
+        """Learns the code's marks for a plain lower-case and a plain upper-case word from one fixed run over `b A b` (the
+        encoding of the word case - 0 / 1 / -1, an Enum, strings - is the code's own business)."""
+        try:
+            tape = [1 + self.classes.index(c) for c in "b A b "] + [0]
+        except ValueError:
+            return
+        self.calibrating = True
+        low, oth = set(), set()
+        self.lower_marks, self.other_marks = low, oth
+        try:
+            self.run_once(Ctx(list(tape)))
+        finally:
+            self.calibrating = False
+        if not low or low & oth:
+            self.lower_marks, self.other_marks = {("int", 0)}, set()
 
     def run_once(self, ctx: Ctx):
         it = new_interp(self.P, ctx, {}, None)
@@ -390,6 +459,7 @@ class TokExplorer:
         import os
         global _EX
         _EX = self
+        self.calibrate()
         jobs = jobs or int(os.environ.get("VERIF_JOBS") or 0) or min(16, os.cpu_count() or 1)
         level = [[]]
         pool = None
@@ -544,3 +614,127 @@ def check_partition(program: Program, tier: str):
                 if key not in issues:
                     issues[key] = {"input": text, "pattern": pattern, "got": got, "want": want, "form": form}
     return issues, n
+
+
+# --------------------------------------------------------------------------- directed table (rule C13.R5)
+QUICK_NAME_TOKENS = ["A", "b", "{", "}", "\\", ",", " ", "{c}"]
+THOROUGH_NAME_TOKENS = QUICK_NAME_TOKENS + ["~", "{B}", "泽", " "]
+
+
+def directed_names(tier: str) -> List[str]:
+    toks = THOROUGH_NAME_TOKENS if tier == "thorough" else QUICK_NAME_TOKENS
+    out, seen = [], set()
+    for k in range(1, 6):
+        for t in itertools.product(toks, repeat=k):
+            s = "".join(t)
+            if s not in seen:
+                seen.add(s)
+                out.append(s)
+    out += ["Smith} {John", "Jones}, {Ann", "A}{B", "{A}}{", "a, b, c, d", "Trailing,", "A B, ", "ʿAbd al-Rahman, Ali", "J. R. R. Tolkien"]
+    return out
+
+
+def reference_name(text: str):
+    """('invalid', reason) or ('parts', dict) by the reference tokeniser and BibTeX's partition rule; words with braces or escapes
+    make the partition (not the word lists per section) undecided: ('sections', sections)."""
+    ref = RefTok()
+    special = set()
+    for c in text:
+        before = (len(ref.sections), len(ref.sections[-1]))
+        had = ref.has_special
+        ref.feed(c)
+        if had and (len(ref.sections), len(ref.sections[-1])) != before and not ref.invalid:
+            special.add((before[0] - 1, before[1]))
+    had = ref.has_special
+    before = (len(ref.sections), len(ref.sections[-1]))
+    ref.end()
+    if had and not ref.invalid and (len(ref.sections), len(ref.sections[-1])) != before:
+        special.add((before[0] - 1, before[1]))
+    if ref.invalid:
+        return ("invalid", ref.invalid)
+    secs = ref.sections
+    if not any(secs):
+        return ("parts", {"first": [], "von": [], "last": [], "jr": []})
+    if special or not secs[0]:
+        return ("sections", secs)
+    cls = [["l" if bibtex_is_lower(w) else "U" if bibtex_is_lower(w) is False else "c" for w in s] for s in secs]
+    want_idx = ref_partition(cls)
+    return ("parts", {k: [secs[si][wi] for (si, wi) in v] for k, v in want_idx.items()})
+
+
+_DN = None
+
+
+def _dn_work(chunk):
+    P, fi, exc_cls = _DN
+    bad, und = [], []
+
+    def run(ctx):
+        it = new_interp(P, ctx, {}, None)
+        it.frames.append(Frame(fi.module, None, {}, None, "<driver>"))
+        out = []
+        for t in chunk:
+            try:
+                res = it.call_function(AFunc(fi, fi.node, fi.module), [t], {})
+                out.append((t, ("parts", {k: list(it.iterate(it.get_attr(res, k))) for k in ("first", "von", "last", "jr")})))
+            except Raised as r:
+                is_inv = isinstance(r.exc, AObj) and exc_cls in r.exc.cls.mro
+                out.append((t, ("invalid", None) if is_inv else ("raises", r.cls_name())))
+            except (Unsupported, LoopBound) as u:
+                out.append((t, ("unsupported", str(u))))
+        return out
+    n = 0
+    for ctx, rows in explore(run, 50):
+        for t, got in rows:
+            n += 1
+            if got[0] == "unsupported":
+                if len(und) < 3:
+                    und.append((t, got[1]))
+                continue
+            want = reference_name(t)
+            ok = True
+            if got[0] == "raises":
+                ok = False
+            elif want[0] == "invalid" or got[0] == "invalid":
+                ok = want[0] == got[0]
+            elif want[0] == "parts":
+                ok = got[1] == want[1]
+            else:
+                secs, p = want[1], got[1]
+                if len(secs) == 1:
+                    ok = p["first"] + p["von"] + p["last"] == secs[0] and not p["jr"]
+                elif len(secs) == 2:
+                    ok = p["von"] + p["last"] == secs[0] and p["first"] == secs[1] and not p["jr"]
+                else:
+                    ok = p["von"] + p["last"] == secs[0] and p["jr"] == secs[1] and p["first"] == secs[2]
+            if not ok and len(bad) < 20:
+                bad.append((t, got, want))
+    return {"n": n, "bad": bad, "undecided": und}
+
+
+def directed_name_table(P: Program, tier: str, jobs=None):
+    import multiprocessing as mp
+    import os
+    global _DN
+    fi = P.func("middlewares.names", "parse_single_name_into_parts")
+    exc_cls = P.module("middlewares.names").classes.get("InvalidNameError")
+    texts = directed_names(tier)
+    _DN = (P, fi, exc_cls)
+    jobs = jobs or int(os.environ.get("VERIF_JOBS") or 0) or min(16, os.cpu_count() or 1)
+    size = max(200, len(texts) // (jobs * 4))
+    chunks = [texts[i:i + size] for i in range(0, len(texts), size)]
+    pool = None
+    try:
+        if jobs > 1:
+            try:
+                pool = mp.get_context("fork").Pool(jobs)
+            except (OSError, ValueError):
+                pool = None
+        parts = pool.map(_dn_work, chunks) if pool is not None else [_dn_work(c) for c in chunks]
+    finally:
+        if pool is not None:
+            pool.terminate()
+            pool.join()
+        _DN = None
+    bad = sorted((b for p in parts for b in p["bad"]), key=lambda b: (len(b[0]), b[0]))
+    return {"texts": len(texts), "bad": bad, "undecided": [u for p in parts for u in p["undecided"]]}
